@@ -143,6 +143,54 @@ func Observe(bc *blockchain.Blockchain, u *Universe, how How, n uint64, hash *fe
 	return ReadTokens(sr, u, how == Head)
 }
 
+// ObserveCasm opens the state the requested way and asks CompiledClassHash for every listed class hash
+// (the head readers answer ClassCasmHashMetadata.CasmHash, the history readers CasmHashAt(block)).
+func ObserveCasm(bc *blockchain.Blockchain, classes []string, how How, n uint64, hash *felt.Felt) (tokens []string) {
+	all := func(t string) []string {
+		out := make([]string, len(classes))
+		for i := range out {
+			out[i] = t
+		}
+		return out
+	}
+	var (
+		sr     core.StateReader
+		closer func() error
+		err    error
+	)
+	defer func() {
+		if r := recover(); r != nil {
+			tokens = all("err:panic")
+		}
+	}()
+	switch how {
+	case ByNumber:
+		sr, closer, err = bc.StateAtBlockNumber(n)
+	case ByHash:
+		sr, closer, err = bc.StateAtBlockHash(hash)
+	default:
+		sr, closer, err = bc.HeadState()
+	}
+	if err != nil {
+		t := ErrToken(err)
+		if t != NotFound {
+			return all("err:open:" + strings.TrimPrefix(t, "err:"))
+		}
+		return all(OpenNotFound)
+	}
+	defer func() {
+		if cerr := closer(); cerr != nil && tokens != nil {
+			tokens = all("err:close")
+		}
+	}()
+	for _, h := range classes {
+		sh := felt.SierraClassHash(*Felt(h))
+		v, err := sr.CompiledClassHash(&sh)
+		tokens = append(tokens, Token((*felt.Felt)(&v), err))
+	}
+	return tokens
+}
+
 func fill(u *Universe, t string) []string {
 	out := make([]string, len(u.Queries()))
 	for i := range out {
